@@ -15,6 +15,7 @@ ExpectedMem(e) ==
     CASE e.ev = "record" -> [mem EXCEPT ![e.args.user] = Append(@, [id |-> nextId, age |-> 0])]
       [] e.ev = "age"    -> [u \in Users |-> Older(mem[u], e.args.d)]
       [] e.ev = "save"   -> mem
+      [] e.ev = "save_crash" -> mem
       [] e.ev = "load"   -> [u \in Users |-> Fresh(disk[u])]
       [] e.ev = "expire" -> [u \in Users |-> Fresh(mem[u])]
 ObsMem(e) == [u \in Users |-> [i \in DOMAIN e.mem[u] |-> [id |-> e.mem[u][i].id, age |-> e.mem[u][i].age]]]
@@ -44,7 +45,8 @@ TNext == /\ l <= Len(TraceLog)
                    /\ UNCHANGED <<svars, rvars>>
               [] OTHER ->
                    /\ mem' = ObsMem(e)
-                   /\ disk' = (CASE e.ev = "save" -> mem [] e.ev = "age" -> [u \in Users |-> Older(disk[u], e.args.d)] [] OTHER -> disk)
+                   \* a save that was cut short leaves the file as it was (a completed one replaces it)
+                   /\ disk' = (CASE e.ev = "save" -> mem [] e.ev = "save_crash" -> (IF e.saved THEN mem ELSE disk) [] e.ev = "age" -> [u \in Users |-> Older(disk[u], e.args.d)] [] OTHER -> disk)
                    /\ nextId' = (IF e.ev = "record" THEN nextId + 1 ELSE nextId)
                    /\ UNCHANGED svars
                    /\ LET bad == Failed(RecGuards(e)) \cup (IF e.panic THEN {"G_C10_NoPanic"} ELSE {}) IN
